@@ -16,6 +16,7 @@ class World:
         self.states = set()
         self.transitions = set()
         self.comparisons = 0
+        self.max_ratio_at = ""
         self.max_ratio = 0.0   # worst observed |difference| / tolerance over passing comparisons
         self.storage = {}      # the simulated durable medium: name -> bytes
 
@@ -53,12 +54,13 @@ class World:
         self.states.add(post)
         self.transitions.add((pre, opkind, post))
 
-    def ratio(self, diff, bound):
+    def ratio(self, diff, bound, label=""):
         """Record head-room of a passing numeric comparison."""
         if bound > 0:
             r = diff / bound
             if r > self.max_ratio:
                 self.max_ratio = r
+                self.max_ratio_at = label
 
     def stats(self):
         return {
@@ -70,6 +72,7 @@ class World:
             "nontrivial": bool(self.nontrivial()),
             "comparisons": self.comparisons,
             "max_ratio": self.max_ratio,
+            "max_ratio_at": self.max_ratio_at,
         }
 
     # ---- simulated storage: torch.save / torch.load through bytes
